@@ -3,7 +3,7 @@
 import numpy as np
 
 from .. import oracles
-from ..gridutil import amax, argmax_where, case_class
+from ..gridutil import amax, argmax_where, case_class, cellbox, inbox
 from ..rec import rec
 from .c02 import xpoint_cells
 
@@ -29,6 +29,7 @@ def run(cap):
     where = None
     npts = 0
     nfail_oracle = 0
+    nout = 0
     kinds = set()
     for rid, region in mesh.regions.items():
         cs = region.contours
@@ -44,11 +45,22 @@ def run(cap):
             d = np.hypot(P[:, j, 0] - sk.R, P[:, j, 1] - sk.Z)
             i0 = int(np.argmin(d))
             R0, Z0 = P[i0, j]
+            inb = inbox(eq, P[:, j, 0], P[:, j, 1], margin=2e-4 * L)
+            if not inb[i0]:
+                nout += int((~inb).sum())
+                continue
             gR, gZ = oracles.fd_grad(psi, R0, Z0, h=1e-4 * L)
             gp = float(np.hypot(gR, gZ))
             tol = 1e3 * (atol + rtol * np.hypot(R0, Z0)) + 10 * ratol / gp
             for idx in (range(i0 + 1, len(cs)), range(i0 - 1, -1, -1)):
                 idx = list(idx)
+                # the integral curve is followed as far as it stays inside the psi data box
+                # (no gradient of the interpolated psi outside: gridutil.psi_box)
+                for q, ii in enumerate(idx):
+                    if not inb[ii]:
+                        nout += len(idx) - q
+                        idx = idx[:q]
+                        break
                 if not idx:
                     continue
                 try:
@@ -62,6 +74,8 @@ def run(cap):
                     worst = amax(e)
                     where = {"region": region.name, "poloidal_index": j, "contour": int(idx[int(np.argmax(e))]), "dist_m": float(amax(e) * tol), "tol_m": float(tol)}
     out.append(rec("points of one poloidal index lie on one grad(psi) integral curve", cls, npts, worst, 1.0, where=where, note="distance in units of 1e3*(atol+rtol*|x|)+10*refine_atol/|grad psi|"))
+    if nout:
+        out.append(rec("informational: contour points outside the psi data box left out", cls + "|outside-box", nout, 0, 0))
     if nfail_oracle:
         out.append(rec("oracle integral curve converged", cls, nfail_oracle, nfail_oracle, 0, sig="gradcurve failed"))
     out.append(rec("region kinds reached", cls + "|" + "+".join(sorted(kinds)), len(kinds), 0, 0))
@@ -96,7 +110,7 @@ def run(cap):
         eZ = region.Zxy.xlow[1:] - region.Zxy.xlow[:-1]
         gR, gZ = oracles.fd_grad(psi, region.Rxy.centre, region.Zxy.centre, h=1e-4 * L)
         sin = np.abs(eR * gZ - eZ * gR) / (np.hypot(eR, eZ) * np.hypot(gR, gZ))
-        sin = np.where(xpoint_cells(region), 0.0, sin)
+        sin = np.where(xpoint_cells(region) | ~cellbox(eq, region, margin=2e-4 * L), 0.0, sin)
         # also skip the whole first/last poloidal column next to an X-point join (strong shear)
         nang += sin.size
         wang = max(wang, amax(sin))
